@@ -709,6 +709,10 @@ class Prettier:
 			フォーマット文字列
 		"""
 		pretty_patterns = ' '.join([cls._pretty_pattern_entry(pattern) for pattern in patterns.entries])
+		# リピートなしの括弧グループ`( e )`は1要素のANDグループとして復元されるため、括弧を付けて出力しないと再解析で別のルールになる
+		if patterns.rep == Repeators.NoRepeat and len(patterns.entries) == 1:
+			return f'({pretty_patterns})'
+
 		return cls._deco_repeat(pretty_patterns, patterns.rep)
 
 	@classmethod
